@@ -310,7 +310,7 @@ func decorate(r *Rand, p *loginPlan) {
 				out = append(out, lPkg{K: "eedinfo", S: 1000 + r.Intn(1000)})
 			}
 			if r.Pct(15) {
-				out = append(out, lPkg{K: "env", S: Pick(r, []int{512, 1024, 2048, 4096})})
+				out = append(out, lPkg{K: "env", S: Pick(r, []int{512, 1024, 2048, 4096, 300}), Zero: Pick(r, []string{"", "", "db-first", "three"})})
 			}
 			out = append(out, x)
 		}
@@ -470,7 +470,15 @@ func (pk lPkg) encode(p *loginPlan) []byte {
 		}
 		return peer.Capability(req, resp)
 	case "env":
-		return peer.EnvChange(peer.EnvMember{Type: 4, New: fmt.Sprint(pk.S), Old: "512"})
+		size := peer.EnvMember{Type: 4, New: fmt.Sprint(pk.S), Old: "512"}
+		switch pk.Zero {
+		case "db-first":
+			// several members in one package, the packet size not the first of them
+			return peer.EnvChange(peer.EnvMember{Type: 1, New: "master", Old: "tempdb"}, size)
+		case "three":
+			return peer.EnvChange(peer.EnvMember{Type: 2, New: "us_english", Old: ""}, peer.EnvMember{Type: 3, New: "utf8", Old: "iso_1"}, size)
+		}
+		return peer.EnvChange(size)
 	case "eedinfo":
 		return peer.EED(int32(pk.S), 1, 10, "", 2, 0, "informational", "srv", "", 0)
 	}
@@ -718,6 +726,9 @@ func runLogin(p *loginPlan, schedSeed uint64, replay []simrt.Choice, lenient, ke
 			ctx2, cancel2 := simrt.WithTimeout(context.Background(), 30*time.Second)
 			obs.relogin.loginErr = ch.Login(ctx2, lc)
 			cancel2()
+			if obs.relogin.loginErr == nil {
+				obs.relogin.capsDiff = capsDiffOf(conn)
+			}
 		}
 		obs.conn = conn
 		if obs.loginErr == nil {
@@ -808,9 +819,17 @@ func (c08) ID() string { return "C08" }
 func c08EditCount() int { return len(loginEdits(false)) + len(loginEdits(true)) }
 func (c08) NRuns(tier string) int {
 	if tier == "thorough" {
-		return c08EditCount()*300 + c08CancelSweep(tier) + 300000
+		return c08EditCount()*300 + c08CancelSweep(tier) + c08ReloginSweep(tier) + 300000
 	}
-	return c08EditCount()*6 + c08CancelSweep(tier) + 2000
+	return c08EditCount()*6 + c08CancelSweep(tier) + c08ReloginSweep(tier) + 2000
+}
+
+// c08ReloginSweep: the number of runs of the relogin sweep (Gen).
+func c08ReloginSweep(tier string) int {
+	if tier == "thorough" {
+		return 800
+	}
+	return 80
 }
 
 // c08CancelSweep: the number of runs of the cancel sweep (Gen).
@@ -875,6 +894,22 @@ func (c08) Gen(r *Rand, idx int, tier string) interface{} {
 		p.Edit = "none (cancel sweep)"
 		p.Class = "EITHER"
 		p.CancelAtStep = 1 + (j/2)%150
+		return p
+	}
+	if j := idx - ne - c08CancelSweep(tier); j >= 0 && j < c08ReloginSweep(tier) {
+		// relogin sweep: the first attempt gets capabilities of another shape and then no final DONE (it fails when
+		// its context ends); the second attempt on the same connection meets the valid script
+		p := genLoginPlan(r, true)
+		shape := []string{"resp", "req", "short", "long", "swapped", "dup", "sec", "onlyreq"}[j%8]
+		for i := range p.Phase2 {
+			if p.Phase2[i].K == "cap" {
+				p.Phase2[i].Zero = shape
+				p.Trunc2 = i + 1
+			}
+		}
+		p.Relogin = true
+		p.Class = "MUST-FAIL"
+		p.Edit = "relogin sweep: capabilities " + shape + ", no final DONE; then a valid second attempt"
 		return p
 	}
 	// seeded: benign decorations only (must succeed), or 2..4 edits (class: MUST-FAIL if any edit is MUST-FAIL, else EITHER)
@@ -1020,6 +1055,16 @@ func (c08) Run(plan interface{}, schedSeed uint64, replay []simrt.Choice, lenien
 			if p.Encrypted && obs.capsDiff != "" && !capEdited(p) {
 				v.Violate("caps", "capabilities after login differ from the server's", "%s: %s", where, obs.capsDiff)
 			}
+		}
+		if p.Relogin && obs.relogin != nil && strings.Contains(p.Edit, "relogin sweep") {
+			// the second attempt on the same connection met the valid script: it succeeds, and the connection has the
+			// capabilities the server returned THEN
+			if obs.relogin.loginErr != nil {
+				v.Violate("control-login", "valid login fails after a failed one on the same connection", "%s: the second Login returned %v", where, obs.relogin.loginErr)
+			} else if obs.relogin.capsDiff != "" {
+				v.Violate("caps", "capabilities after login differ from the server's", "%s: after the second, valid login: %s", where, obs.relogin.capsDiff)
+			}
+			v.Probe("second-login-on-the-same-connection")
 		}
 		if obs.loginErr == nil {
 			want := 512
